@@ -3,6 +3,8 @@
 package gtree
 
 import (
+	"strings"
+
 	"github.com/fatih/color"
 
 	wasm "github.com/ddddddO/gtree/zz_verif_wasm"
@@ -152,4 +154,41 @@ func VerifC17Names() {
 		verifAssert(w1.out == w2.out, "C17.out.names"+cls)
 	}
 	verifReach("C17.names.end")
+}
+
+func init() {
+	verifRegister("VerifC17Long", VerifC17Long)
+}
+
+// VerifC17Long: the scanner's line limit in both variants, on the REAL bufio.Scanner (job flag realscan): one root
+// row at the limit (65535 bytes fit with their newline, one byte more does not) or at twice the limit, one arbitrary
+// name byte, optionally a short second root; text output. Same accept/reject decision, same output.
+func VerifC17Long() {
+	b := verifBytes("byte", 1)
+	verifAssume(b[0] != '\n' && b[0] != '\r' && b[0] < 0x80)
+	n := 65535 - 2 - 1
+	full := verifN() > 0 // quick tier: the two rows around the limit only
+	maxLen := uint(1)
+	if full {
+		maxLen = 2
+	}
+	switch verifChoose("len", 0, maxLen) {
+	case 1:
+		n++
+	case 2:
+		n = 2*65536 - 3 - 1
+	}
+	doc := "- " + strings.Repeat("a", n) + b + "\n"
+	if full && verifFlag("second") {
+		doc += "- z\n"
+	}
+	w1, w2 := newVerifWriter(), newVerifWriter()
+	verifContext("C17.long")
+	err1 := Output(w1, strings.NewReader(doc))
+	err2 := wasm.Output(w2, strings.NewReader(doc))
+	verifAssert((err1 == nil) == (err2 == nil), "C17.acc.long/text")
+	if err1 == nil && err2 == nil {
+		verifAssert(w1.out == w2.out, "C17.out.long/text")
+	}
+	verifReach("C17.long.end")
 }
